@@ -5,6 +5,7 @@ import (
 	"bytes"
 	"crypto/aes"
 	"crypto/cipher"
+	"encoding/json"
 	"fmt"
 	"testing"
 
@@ -442,19 +443,35 @@ func genPad(t *rapid.T) padCase {
 	c := padCase{Block: rapid.OneOf(rapid.SampledFrom([]int{1, 2, 8, 16, 255}), rapid.IntRange(1, 255)).Draw(t, "block"), Mode: rapid.IntRange(0, 2).Draw(t, "mode"), Mut: rapid.IntRange(0, 1<<16).Draw(t, "mut")}
 	switch c.Mode {
 	case 0:
-		c.Data = g.BytesLen(rapid.IntRange(1, 64).Draw(t, "n")).Draw(t, "data")
+		n := rapid.IntRange(1, 64).Draw(t, "n")
+		if rapid.IntRange(0, 3).Draw(t, "relative") == 0 { // lengths chosen relative to the block size: k*b-1, k*b, k*b+1
+			n = max(1, rapid.IntRange(1, 3).Draw(t, "k")*c.Block+rapid.IntRange(-1, 1).Draw(t, "d"))
+		}
+		c.Data = g.BytesLen(n).Draw(t, "data")
 	case 1:
 		n := rapid.IntRange(0, 64).Draw(t, "n")
+		if rapid.IntRange(0, 3).Draw(t, "long") == 0 {
+			n = rapid.IntRange(0, 3*c.Block+1).Draw(t, "nlong")
+		}
 		if rapid.Bool().Draw(t, "multiple") {
 			n = n / c.Block * c.Block
 		}
 		d := g.BytesLen(n).Draw(t, "data")
 		if n > 0 && rapid.Bool().Draw(t, "smalltail") {
 			d[n-1] = byte(rapid.IntRange(0, 17).Draw(t, "tail"))
+		} else if n > 0 && rapid.Bool().Draw(t, "padtail") { // a run of equal bytes at the end, about as long as its value
+			v := rapid.IntRange(1, 255).Draw(t, "v")
+			for i, run := 0, v+rapid.IntRange(-2, 1).Draw(t, "runlen"); i < run && i < n; i++ {
+				d[n-1-i] = byte(v)
+			}
 		}
 		c.Data = d
 	case 2:
-		c.Data = g.BytesLen(rapid.IntRange(1, 40).Draw(t, "n")).Draw(t, "data")
+		n := rapid.IntRange(1, 40).Draw(t, "n")
+		if rapid.IntRange(0, 3).Draw(t, "relative") == 0 {
+			n = max(1, rapid.IntRange(1, 2).Draw(t, "k")*c.Block+rapid.IntRange(-1, 1).Draw(t, "d"))
+		}
+		c.Data = g.BytesLen(n).Draw(t, "data")
 	}
 	return c
 }
@@ -488,6 +505,8 @@ func runPad(c padCase, r *pb.Rec) error {
 			}
 		}
 		r.ClassIf(len(c.Data)%c.Block == 0, "full-block padding")
+		r.ClassIf(len(c.Data)%c.Block == 0 && c.Block >= 128, "full-block padding with a block size >= 128")
+		r.ClassIf(len(c.Data)%c.Block == 0 && c.Block == 255, "full-block padding with block size 255")
 		r.NonTrivialIf(len(c.Data)%c.Block == 0 || c.Block > 16)
 		return nil
 	case 1:
@@ -603,6 +622,68 @@ func runCBCBad(c cbcBadCase, r *pb.Rec) error {
 	return nil
 }
 
+// TestPadSweep: every block size 1..255 with every data length 1..2*block+1 (round trip), and for every block
+// size every padding value 0..255 as the last byte of otherwise correctly padded data of one and two blocks
+// (un-padding accepted exactly for the real padding length).
+func TestPadSweep(t *testing.T) {
+	st := pb.Stats("pkcs7_all_block_sizes")
+	st.SetExhaustive(true)
+	st.SetRule("exhaustive: block sizes 1..255 x data lengths 1..2*block+1: PKCS7UnPadding(PKCS7Padding(d,b),b) = d and the padded form equals the reference; block sizes 1..255 x trailing runs of every byte value v 1..255 of length v-1, v, v+1 (as far as they fit in two blocks): accepted <=> the reference strict un-padding accepts; non-trivial = full-block padding or a trailing run")
+	data := make([]byte, 2*255+1)
+	for i := range data {
+		data[i] = byte(i*7 + 3)
+	}
+	fail := func(c padCase, err error) {
+		js, _ := json.Marshal(c)
+		st.Violation("exhaustive", js, err)
+		t.Errorf("%v", err)
+	}
+	for b := 1; b <= 255; b++ {
+		for n := 1; n <= 2*b+1; n++ {
+			c := padCase{Data: data[:n], Block: b, Mode: 0}
+			rc := &pb.Rec{}
+			var err error
+			if e := pb.Catch(func() { err = runPad(c, rc) }); e != nil {
+				err = e
+			}
+			st.CaseKey(uint64(b)<<20|uint64(n), rc, func() []byte { j, _ := json.Marshal(map[string]int{"block": b, "len": n}); return j })
+			if err != nil {
+				fail(c, err)
+				return
+			}
+		}
+		for v := 1; v <= 255; v++ {
+			for run := v - 1; run <= v+1; run++ {
+				if run < 1 || run > 2*b {
+					continue
+				}
+				in := append([]byte(nil), data[:2*b]...)
+				if run < 2*b && in[2*b-run-1] == byte(v) {
+					in[2*b-run-1] ^= 0x55 // the byte in front of the run differs from it
+				}
+				for i := 0; i < run; i++ {
+					in[2*b-1-i] = byte(v)
+				}
+				c := padCase{Data: in, Block: b, Mode: 1}
+				rc := &pb.Rec{}
+				var err error
+				if e := pb.Catch(func() { err = runPad(c, rc) }); e != nil {
+					err = e
+				}
+				rc.NonTrivial()
+				st.CaseKey(1<<40|uint64(b)<<20|uint64(v)<<4|uint64(run-v+1), rc, func() []byte {
+					j, _ := json.Marshal(map[string]int{"block": b, "value": v, "run": run})
+					return j
+				})
+				if err != nil {
+					fail(c, err)
+					return
+				}
+			}
+		}
+	}
+}
+
 // native fuzz (thorough): un-padding on arbitrary bytes
 func FuzzUnpad(f *testing.F) {
 	f.Add([]byte{1}, 1)
@@ -636,8 +717,8 @@ func init() {
 	pb.Register("gcm", pb.Options{Twins: 3, Base: 8000, Required: []string{"tag bit flipped", "nonce corrupted", "aad corrupted", "in place", "non-standard nonce size", "nonce longer than one AES block", "plaintext longer than 256 bytes", "same key, two nonce sizes", "empty nonce rejected"},
 		Rule: "keys 16/24/32, nonce 1..40 bytes and 64/100/255/256/1000, AAD 0..40 and up to 5000, plaintext 0..80 and (1 in 16) up to 65537, in-place layouts; single-bit flips over ciphertext||tag, nonce, AAD, truncation, extension; oracle crypto/cipher GCM Seal/Open; non-trivial = corruption or in-place case"},
 		genGCM, runGCM)
-	pb.Register("pkcs7", pb.Options{Twins: 3, Base: 12000, Required: []string{"full-block padding", "near-valid padding", "un-padding rejected", "un-padding accepted"},
-		Rule: "round trip for data 1..64 and block 1..255 (with spare capacity in the input); un-padding of arbitrary byte strings and of near-valid paddings (one pad byte wrong, pad 0, pad > block, length not a multiple); oracle reference strict un-padding (error <=> rejected, equal prefix); non-trivial = rejected multiple-of-block input or full-block/large-block round trip"},
+	pb.Register("pkcs7", pb.Options{Twins: 3, Base: 12000, Required: []string{"full-block padding", "full-block padding with a block size >= 128", "full-block padding with block size 255", "near-valid padding", "un-padding rejected", "un-padding accepted"},
+		Rule: "round trip for data 1..64 (1 in 4: k*block-1..k*block+1, k 1..3) and block 1..255 (with spare capacity in the input); un-padding of arbitrary byte strings and of near-valid paddings (one pad byte wrong, pad 0, pad > block, length not a multiple); oracle reference strict un-padding (error <=> rejected, equal prefix); non-trivial = rejected multiple-of-block input or full-block/large-block round trip"},
 		genPad, runPad)
 	pb.Register("cbc_unpad", pb.Options{Twins: 3, Base: 8000, Required: []string{"ciphertext length illegal", "bad padding rejected", "padding accepted"},
 		Rule: "arbitrary 1-4 block strings with valid / one-byte-wrong / out-of-range padding tails, reference-encrypted with raw CBC, optionally truncated/extended, then AESCBCDecrypt (fresh or in-place dst); oracle error <=> reference strict un-padding rejects, equal length and content; non-trivial = rejected"},
